@@ -311,7 +311,76 @@ class ImapSession:
 
                 if len(code) != need or not all(_re.fullmatch(r"[0-9]+(?::[0-9]+)?(?:,[0-9]+(?::[0-9]+)?)*", a) for a in args):
                     w.violate("C07", "bad_response_code", session=self.sid, code=[str(x) for x in code], cmd=self._curverb(), raw=bytes(parts[0][:120]))
+            if r.kind == "FETCH":
+                self._check_fetch_structures(r, parts)
             self._handle(r)
+
+    def _check_fetch_structures(self, r, parts):
+        """C07: the parenthesised structures of ENVELOPE and BODY/BODYSTRUCTURE have the shape rfc3501 gives them
+        (a client's parser indexes into them): address lists are NIL or non-empty lists of 4-element addresses;
+        a body is either 1*body SP subtype or type SP subtype SP params ..."""
+        w = self.world
+        try:
+            items = fetch_items(r)
+        except Exception:
+            return
+
+        def nil(v):
+            return isinstance(v, Atom) and str(v).upper() == "NIL"
+
+        def bad(what, v):
+            w.violate("C07", "bad_fetch_structure", session=self.sid, what=what, value=repr(v)[:160], cmd=self._curverb(), raw=bytes(parts[0][:120]))
+
+        env = items.get("ENVELOPE")
+        if env is not None:
+            w.count("c07_envelope_shape")
+            if not isinstance(env, list) or len(env) != 10:
+                bad("envelope is not a list of 10", env)
+            else:
+                for i in range(2, 8):
+                    a = env[i]
+                    if nil(a):
+                        continue
+                    if not isinstance(a, list) or not a:
+                        bad(f"envelope address field {i} is neither NIL nor a non-empty list", a)
+                        break
+                    if any(not isinstance(x, list) or len(x) != 4 for x in a):
+                        bad(f"envelope address field {i}: an address is not a list of 4", a)
+                        break
+                for i in (0, 1, 8, 9):
+                    if isinstance(env[i], list):
+                        bad(f"envelope field {i} is a list", env[i])
+                        break
+
+        def body(b, depth=0):
+            if not isinstance(b, list) or not b or depth > 40:
+                bad("body is not a non-empty list", b)
+                return
+            if isinstance(b[0], list):
+                k = 0
+                while k < len(b) and isinstance(b[k], list):
+                    body(b[k], depth + 1)
+                    k += 1
+                if k >= len(b) or isinstance(b[k], list) or nil(b[k]):
+                    bad("multipart body without a subtype string", b[k:k + 1])
+                return
+            if len(b) < 7:
+                bad("single-part body with fewer than 7 fields", b)
+                return
+            if isinstance(b[1], list) or nil(b[0]) or nil(b[1]):
+                bad("body type/subtype is not a string", b[:2])
+            if not (nil(b[2]) or (isinstance(b[2], list) and b[2] and len(b[2]) % 2 == 0)):
+                bad("body parameter list is neither NIL nor a non-empty list of pairs", b[2])
+            if isinstance(b[5], list) or nil(b[5]):
+                bad("body encoding is not a string", b[5])
+            if isinstance(b[6], list) or not str(b[6]).isdigit():
+                bad("body size is not a number", b[6])
+
+        for name in ("BODY", "BODYSTRUCTURE"):
+            bs = items.get(name)
+            if bs is not None:
+                w.count("c07_body_shape")
+                body(bs)
 
     def _salvage(self, parts):
         """A response that framed correctly but does not tokenize: keep the
